@@ -1027,6 +1027,26 @@ func runL1History(g *gen, mode string, nops int, hstats map[string]int, faulty, 
 		nextH++
 		hstats["script_cutoff_boundary"]++
 	}
+	if !faulty && !crashy && mode != "rows" && len(script) == 0 && g.r.Intn(5) == 0 {
+		// one key written again at the SAME time in consecutive versions (an idempotent retry with
+		// another value, or a tombstone at the time of the value): TraceHistory must stay strictly
+		// decreasing in time
+		h := nextH
+		nextH++
+		k := keys[0]
+		t := baseTime + int64(1+g.r.Intn(5))*10
+		script = append(script,
+			&kop{kind: "open", h: h, when: baseTime - 4000000000, seed: g.r.Int63n(1000000)},
+			&kop{kind: "set", h: h, key: k, when: t - 10, pval: 1}, &kop{kind: "commit", h: h},
+			&kop{kind: "set", h: h, key: k, when: t, pval: 2}, &kop{kind: "commit", h: h},
+			&kop{kind: "set", h: h, key: k, when: t, pval: 3}, &kop{kind: "commit", h: h},
+			&kop{kind: "trace", h: h, key: k, after: baseTime - 100})
+		if g.r.Intn(2) == 0 {
+			script = append(script, &kop{kind: "tomb", h: h, key: k, when: t}, &kop{kind: "commit", h: h},
+				&kop{kind: "trace", h: h, key: k, after: baseTime - 100})
+		}
+		hstats["script_same_time_history"]++
+	}
 	if !faulty && !crashy && mode != "rows" && len(script) == 0 && g.r.Intn(4) == 0 {
 		// a fork: one parent, two children created on either side of a cutoff, a third handle that
 		// merges both and deletes history with that cutoff; every retained version is then walked
